@@ -158,3 +158,80 @@ pub fn c03b_precedence_table() {
     kani::cover!(pa < pb, "lower");
     kani::cover!(true, "end");
 }
+
+// ---- C16a / C01e: clamp()/min()/max() never crash and reduce to a number only over convertible units ----
+
+use crate::units::*;
+use crate::util::{fixed_random_state, fmt_stub, span};
+use grass_compiler::sass_value::{Number, SassCalculation, SassNumber, Value};
+use grass_compiler::Options;
+
+fn num(x: f64, u: u8) -> CalculationArg {
+    CalculationArg::Number(SassNumber { num: Number(x), unit: unit_of(u), as_slash: None })
+}
+
+/// HashSet-backed in the real code; its result only selects between "error" and "keep the calculation"
+pub fn possibly_compatible_stub(_a: &SassNumber, _b: &SassNumber) -> bool { kani::any() }
+
+fn pickm() -> f64 {
+    let i: usize = kani::any();
+    kani::assume(i < 5);
+    [0.0, 1.0, 2.0, 96.0, -3.0][i]
+}
+
+/// convertible per the CSS classes (or same unit)
+fn convertible(a: u8, b: u8) -> bool {
+    a == b || (a != NONE && b != NONE && css_class(a) != 0 && css_class(a) == css_class(b))
+}
+
+fn in_unit(x: f64, from: u8, to: u8) -> f64 {
+    if from == to { x } else { x * crate::gen_units::table(to, from).unwrap() }
+}
+
+pub fn clamp_check<const UMIN: u8, const UVAL: u8, const UMAX: u8>() {
+    let (lo, v, hi) = (pickm(), pickm(), pickm());
+    let options = Options::default();
+    let r = SassCalculation::clamp(num(lo, UMIN), Some(num(v, UVAL)), Some(num(hi, UMAX)), &options, span(0));
+    match &r {
+        Ok(Value::Dimension(n)) => {
+            // reduced to a number: only allowed when all operands are mutually convertible
+            assert!(convertible(UMIN, UVAL) && convertible(UMIN, UMAX) && convertible(UVAL, UMAX),
+                "C16a: clamp() was reduced to a number although its operands are not mutually convertible");
+            // and the number is clamp(value, min, max) computed in the value's unit
+            let (lo_v, hi_v) = (in_unit(lo, UMIN, UVAL), in_unit(hi, UMAX, UVAL));
+            let (want, want_unit) = if v <= lo_v { (lo, UMIN) } else if v >= hi_v { (hi, UMAX) } else { (v, UVAL) };
+            assert!(n.num.0 == want && index_of(&n.unit) == want_unit, "C16a: clamp() reduced to the wrong operand");
+            kani::cover!(true, "reduced");
+        }
+        Ok(_) => { kani::cover!(true, "kept_calculation"); }
+        Err(_) => { kani::cover!(true, "rejected"); }
+    }
+    kani::cover!(true, "end");
+    core::mem::forget(r);
+    core::mem::forget(options);
+}
+
+macro_rules! cinst {
+    ($name:ident, $a:expr, $b:expr, $c:expr) => {
+        #[kani::proof]
+        #[kani::unwind(5)]
+        #[kani::stub(std::hash::RandomState::new, fixed_random_state)]
+        #[kani::stub(alloc::fmt::format, fmt_stub)]
+        #[kani::stub(grass_compiler::sass_value::Number::convert, convert_stub)]
+        #[kani::stub(grass_compiler::sass_value::SassNumber::has_possibly_compatible_units, possibly_compatible_stub)]
+        pub fn $name() { clamp_check::<$a, $b, $c>() }
+    };
+}
+// units: 34 none, 0 px, 2 in, 5 pt, 7 em, 21 deg
+cinst!(c16a_clamp_none_px_em, 34, 0, 7);
+cinst!(c16a_clamp_px_in_pt, 0, 2, 5);
+cinst!(c16a_clamp_px_px_px, 0, 0, 0);
+cinst!(c16a_clamp_none_none_none, 34, 34, 34);
+cinst!(c16a_clamp_px_em_px, 0, 7, 0);
+cinst!(c16a_clamp_none_px_px, 34, 0, 0);
+cinst!(c16a_clamp_px_none_px, 0, 34, 0);
+cinst!(c16a_clamp_px_px_none, 0, 0, 34);
+cinst!(c16a_clamp_deg_px_px, 21, 0, 0);
+cinst!(c16a_clamp_px_in_em, 0, 2, 7);
+cinst!(c16a_clamp_em_em_em, 7, 7, 7);
+cinst!(c16a_clamp_none_px_in, 34, 0, 2);
